@@ -59,13 +59,9 @@ def replay_one(ctx, mm):
 def run(ctx):
     vh = ctx.vh()
     if ctx.replay and json.load(open(ctx.replay)).get("kind") == "codes":
-        rc = ctx.tlc("MCCodes", "SPECIFICATION Spec\nCHECK_DEADLOCK FALSE\n", label="c16_codes", collect_emit=False, count=False)
-        with open(rc["out"]) as f:
-            pc = subprocess.run([vh, "codes-check"], stdin=f, stdout=subprocess.PIPE, stderr=subprocess.PIPE, text=True)
-        print(pc.stdout.strip())
-        if pc.returncode == 1:
-            print("VIOLATION property=C16 replay=%s" % ctx.replay)
-        return pc.returncode
+        import progcheck
+        progcheck.codes_table_check(ctx, {"hier"})
+        return 1 if ctx.violations else 0
     if ctx.replay:
         r = vlib.run([vh, "ignoreset-replay", "-replay", ctx.replay])
         print(r.stdout.strip())
@@ -119,16 +115,9 @@ def run(ctx):
                 raise vlib.ToolError("mismatch did not reproduce: %s" % mm)
         os.remove(r["out"])
 
-    # (2b) the code table that every module takes from Codes.tla, against src/codes/codes.go (check lists, categories, documentation pages)
-    rc = ctx.tlc("MCCodes", "SPECIFICATION Spec\nCHECK_DEADLOCK FALSE\n", label="c16_codes", collect_emit=False, count=False)
-    with open(rc["out"]) as f:
-        pc = subprocess.run([vh, "codes-check"], stdin=f, stdout=subprocess.PIPE, stderr=subprocess.PIPE, text=True)
-    if pc.returncode not in (0, 1):
-        raise vlib.ToolError("codes-check failed: " + (pc.stderr or pc.stdout)[-600:])
-    cres = json.loads(pc.stdout)
-    for m in (cres["mismatches"] or [])[:3]:
-        if len(ctx.violations) < 3:
-            ctx.violation("code table: " + m, {"kind": "codes", "mismatch": m})
+    # (2b) the ALL > category > code lists that every module takes from Codes.tla, against src/codes/codes.go
+    import progcheck
+    progcheck.codes_table_check(ctx, {"hier"})
 
     # (3) insertion order explored inside TLC as well (no emission)
     ctx.tlc("MCIgnoreSet", cfg(3 if thorough else 2, False, False), label="c16_orders", timeout=1500)
